@@ -1,4 +1,5 @@
 import ScrapliModel.Lemmas.PrivSession
+import ScrapliModel.Lemmas.PrivFault
 import ScrapliModel.Generated.Consts
 import ScrapliModel.Lemmas.BodiesPriv
 /-!
@@ -336,6 +337,96 @@ example :
 example : isPayload exLevels [115, 104] = true := by decide
 
 example : treePath exLevels [99] [116] = [[99], [112], [116]] := by decide +kernel
+
+/-! ## navigation steps that fail after the device has moved (`PrivFault.lean`) -/
+
+/-- without faults the fault-aware model is the model -/
+theorem no_faults_is_the_model (c : Cfg) (tgt : Bytes) (s : Sess) :
+    acquirePrivF c true (fun _ => false) tgt s = acquirePriv c tgt s := by
+  unfold acquirePrivF acquirePriv
+  cases find? c.L tgt with
+  | none => rfl
+  | some _ => exact acquireLoopF_nofault c tgt _ _ s
+
+/-- `reset_before_send_keeps_cache_sound`: the cache is reset to `UNKNOWN` BEFORE the escalate /
+de-escalate command is sent, so whichever steps fail after the device already changed mode (prompt
+withheld → timeout, for ANY fault pattern), `AcquirePriv` ends with "the cache names the device's
+level, or names no level"; and when it reports success, device and cache are at the target. -/
+theorem reset_before_send_keeps_cache_sound {c : Cfg} (hd : Dom c) (hu : allUnamb c = true)
+    (faults : Nat → Bool) (tgt : Bytes) (s : Sess) (hi : Inv c s) :
+    Inv c (acquirePrivF c true faults tgt s).2 ∧
+    ((acquirePrivF c true faults tgt s).1 = none →
+      (acquirePrivF c true faults tgt s).2.dev.mode = tgt ∧
+      (acquirePrivF c true faults tgt s).2.cache = tgt) :=
+  acquirePrivF_inv hd hu faults tgt s hi
+
+/-- `cache_coherent_under_faults`: over all sequences of the five operations (payloads not
+transition commands), for ANY pattern of steps that fail after the device moved, the invariant
+holds at every operation boundary. -/
+theorem cache_coherent_under_faults {c : Cfg} (hd : Dom c) (hu : allUnamb c = true)
+    (hdef : c.default ∈ names c.L) (faults : Nat → Bool) :
+    ∀ (ops : List Op) (s : Sess), Inv c s →
+      (∀ op ∈ ops, ∀ l ∈ opLines op, l = [] ∨ isPayload c.L l = true) →
+      Inv c (runOpsF c true faults s ops).2 := by
+  intro ops
+  induction ops with
+  | nil => intro s hi _; exact hi
+  | cons op ops ih =>
+    intro s hi hpl
+    simp only [runOpsF]
+    apply ih _ _ (fun op' h' => hpl op' (List.mem_cons_of_mem _ h'))
+    obtain ⟨s1, hi1, h | h⟩ := runOpF_spec hd hu faults hi op (hpl op (by simp)) hdef
+    · rw [h.2]; exact hi1
+    · exact h.2.2.1
+
+/-- `payload_level_under_faults`: after ANY history of operations and failed navigation steps, the
+next operation either fails in its acquisition and sends no payload line at all, or delivers every
+payload line in the level it demands (commands at the default level, configuration lines at the
+configuration / requested level) — never at the level a failed earlier operation left behind. -/
+theorem payload_level_under_faults {c : Cfg} (hd : Dom c) (hu : allUnamb c = true)
+    (hdef : c.default ∈ names c.L) (faults : Nat → Bool) (history : List Op) (s0 : Sess)
+    (hi : Inv c s0)
+    (hhist : ∀ op ∈ history, ∀ l ∈ opLines op, l = [] ∨ isPayload c.L l = true)
+    (op : Op) (hpl : ∀ l ∈ opLines op, l = [] ∨ isPayload c.L l = true) :
+    let s := (runOpsF c true faults s0 history).2
+    ∃ s1, Inv c s1 ∧
+      (((runOpF c true faults s op).1 ≠ none ∧ (runOpF c true faults s op).2 = s1) ∨
+       PayloadAt c op s1 (runOpF c true faults s op)) :=
+  runOpF_spec hd hu faults (cache_coherent_under_faults hd hu hdef faults history s0 hi hhist) op hpl hdef
+
+/-! ## negation witness: resetting only AFTER a successful step breaks the invariant -/
+
+/-- device and cache in `p` (coherent) -/
+def exAtP : Sess := { dev := { mode := [112], awaiting := none, log := [] }, cache := [112], tick := 0 }
+
+example : allUnamb exCfg = true := by decide
+
+/-- `reset_after_success_breaks_invariant`: the escalation `p → c` fails after the device moved
+(iteration 0 withholds the prompt). With the reset after success the cache still says `p` while
+the device is in `c`: the invariant is broken … -/
+theorem reset_after_success_breaks_invariant :
+    ¬ Inv exCfg (acquirePrivF exCfg false (fun t => t == 0) [99] exAtP).2 := by
+  intro h
+  have hc : (acquirePrivF exCfg false (fun t => t == 0) [99] exAtP).2.cache ∈ names exCfg.L := by
+    decide +kernel
+  have := h.coherent hc
+  revert this
+  decide +kernel
+
+/-- … whereas the source's order leaves `UNKNOWN` in the cache -/
+example : (acquirePrivF exCfg true (fun t => t == 0) [99] exAtP).2.cache = unknownPriv ∧
+    (acquirePrivF exCfg true (fun t => t == 0) [99] exAtP).2.dev.mode = [99] := by decide +kernel
+
+/-- consequence: after the failed `SendConfigs` the next `SendCommand` trusts the stale level,
+skips `AcquirePriv`, and its command `[115]` is executed in `c` instead of the default level `p` -/
+example :
+    (runOpsF exCfg false (fun t => t == 0) exAtP [.sendConfigs [[120]] [99], .sendCommand [115]]).2.dev.log =
+      [([112], []), ([112], [3]), ([99], [115])] := by decide +kernel
+
+/-- the source's order: the command is preceded by a fresh acquisition and runs in `p` -/
+example :
+    (runOpsF exCfg true (fun t => t == 0) exAtP [.sendConfigs [[120]] [99], .sendCommand [115]]).2.dev.log =
+      [([112], []), ([112], [3]), ([99], []), ([99], [4]), ([112], []), ([112], [115])] := by decide +kernel
 
 /-! ## tie to the source: translated body = model (regenerated on every run) -/
 
